@@ -1,2 +1,2 @@
 # properties with a registered check, in the order they were built
-CLAIMED = ["C16"]
+CLAIMED = ["C02", "C16"]
